@@ -42,6 +42,7 @@ type knownFinding struct {
 	Kind      string   `json:"kind"` // "known" or "fixed"
 	Property  string   `json:"property"`
 	Invariant string   `json:"invariant"`
+	Class     string   `json:"class,omitempty"`
 	Contains  []string `json:"detail_contains"`
 	What      string   `json:"what"`
 	Commit    string   `json:"commit,omitempty"`
@@ -64,6 +65,9 @@ func loadKnown(path string) []knownFinding {
 
 func (k *knownFinding) matches(v *Violation) bool {
 	if k.Kind != "known" || k.Property != v.Prop || k.Invariant != v.Invariant {
+		return false
+	}
+	if k.Class != "" && k.Class != v.Class {
 		return false
 	}
 	hay := v.Detail + "\n" + v.Expected + "\n" + v.Actual
